@@ -25,6 +25,14 @@ def run(ck: Check) -> None:
         payload = envgen.payload(rng) if i % 3 else gen.rand_json(rng, 4, [30])
         if i % 17 == 0:
             payload = (1, "a", [2.5])
+        if i % 11 == 5:
+            # a payload that itself looks like an envelope (signed or not): wrapping nests it, it is not passed through
+            inner = gen.envelope(envgen.payload(rng))
+            if rng.random() < 0.6:
+                gen.sign_env(inner, [gen.key(rng.randrange(10))], False, rng)
+            if rng.random() < 0.3:
+                inner["signed"] = {"signatures": {}, "signed": 1}
+            payload = inner
         ks = [gen.key(j) for j in rng.sample(range(10), rng.randint(1, 5))]
         # wrap
         r = ck.run_cases([Case("wrap", [payload], tag="wrap", group=i)], "corr:wrap_as_signable/value")[0]
